@@ -243,6 +243,104 @@ def expand(steps):
     return ex[-1]
 
 
+
+# ------------------------------------------------------------------------------------------------------------
+# library models (every operator class that occurs there is an opaque tagged leaf for the serialiser)
+# ------------------------------------------------------------------------------------------------------------
+LIB_KINDS = ["cf1", "cf2", "matern", "simple", "harmonic", "energy"]
+
+
+def build_lib(cfg):
+    """a model built from library components only; `cfg` = dict(kind=, form=, n=, seed=)"""
+    E = env()
+    ift = E["ift"]
+    kind, form, n = cfg["kind"], cfg.get("form", 0), cfg.get("n", 8)
+    rs = np.random.default_rng(cfg.get("seed", 0))
+    if kind in ("cf1", "cf2", "matern"):
+        cfm = ift.CorrelatedFieldMaker("p")
+        if kind == "matern":
+            cfm.add_fluctuations_matern(ift.RGSpace(n), (1., .2), (.5, .2), (-3., .5))
+        else:
+            cfm.add_fluctuations(ift.RGSpace(n), (1., .1), (1., .1), (1., .1), (-3., .5))
+        if kind == "cf2":
+            cfm.add_fluctuations(ift.RGSpace(4), (1., .1), (1., .1), None, (-2., .5), prefix="t")
+        cfm.set_amplitude_total_offset(0.3, (1., .1))
+        f = cfm.finalize(0)
+    elif kind == "simple":
+        f = ift.SimpleCorrelatedField(ift.RGSpace(n), 0.2, (1., .1), (1., .1), (1., .1), (1., .1), (-3., .5))
+    elif kind == "harmonic":
+        sp = ift.RGSpace(n)
+        hsp = sp.get_default_codomain()
+        amp = ift.makeOp(ift.makeField(hsp, rs.uniform(.5, 1.5, n)))
+        f = ift.HartleyOperator(hsp, sp) @ amp @ ift.FieldAdapter(hsp, "xi")
+        f = f * ift.FieldAdapter(sp, "b").ptw("exp") + f
+    elif kind == "energy":
+        sp = ift.RGSpace(n)
+        g = ift.FieldAdapter(sp, "a") * ift.FieldAdapter(sp, "b").ptw("tanh")
+        lam = g.ptw("exp")
+        d = ift.makeField(sp, rs.poisson(3., n).astype(np.int64))
+        e1 = ift.PoissonianEnergy(d) @ lam
+        e2 = ift.GaussianEnergy(ift.makeField(sp, rs.normal(size=n))) @ (g + lam)
+        if form % 2 == 0:
+            return e1 + e2
+        return e1 + e2 + ift.GaussianEnergy(None, domain=sp) @ g
+    else:
+        raise ValueError("unknown library model " + str(kind))
+    form = form % 5
+    if form == 0:
+        return f.ptw("exp") * f.ptw("sigmoid") + f
+    if form == 1:
+        return f * f + f.ptw("tanh")
+    if form == 2:
+        w = ift.makeOp(ift.makeField(f.target, rs.uniform(.5, 1.5, f.target.shape)))
+        return (w @ f) + f.ptw("exp") * (w @ f)
+    if form == 3:
+        return f.ptw("exp") + f.ptw("exp")
+    return (f + f.ptw("exp")) * (f + f.ptw("exp")).ptw("tanh")
+
+
+def has_node(op):
+    """does the optimiser see at least one _OpSum/_OpProd (the root, or an element of the root chain)?"""
+    E = env()
+    nd = (E["OpSum"], E["OpProd"])
+    return isinstance(op, nd) or (isinstance(op, E["OpChain"]) and any(isinstance(o, nd) for o in op._ops))
+
+
+def is_structural(o):
+    E = env()
+    return isinstance(o, (E["OpSum"], E["OpProd"], E["OpChain"], E["ChainOperator"]))
+
+
+def tag_leaves(op):
+    """give every non-structural operator object of an (unoptimised) tree a `_vtag` (kept by deepcopy); a FieldAdapter at the
+    end of a chain (or standing alone) is a variable and stays untagged; returns {tag: class name}"""
+    E = env()
+    ift = E["ift"]
+    tags, seen = {}, set()
+
+    def tag(o):
+        if not hasattr(o, "_vtag"):
+            o._vtag = 1000 + 5 * len(tags)
+            tags[o._vtag] = type(o).__name__
+
+    def walk(o, is_input):
+        if id(o) in seen and is_structural(o):
+            return
+        seen.add(id(o))
+        if isinstance(o, (E["OpSum"], E["OpProd"])):
+            walk(o._op1, True)
+            walk(o._op2, True)
+        elif isinstance(o, (E["OpChain"], E["ChainOperator"])):
+            for i, x in enumerate(o._ops):
+                walk(x, is_input and i == len(o._ops) - 1)
+        elif type(o) is ift.FieldAdapter and is_input:
+            pass
+        else:
+            tag(o)
+    walk(op, True)
+    return tags
+
+
 class Unserialisable(Exception):
     pass
 
@@ -250,12 +348,13 @@ class Unserialisable(Exception):
 class Ser:
     """operator object -> expression JSON; inserted FieldAdapter names are numbered 100, 101, .. by first occurrence"""
 
-    def __init__(self):
-        self.names = {k: i for i, k in enumerate(KEYS)}
+    def __init__(self, keys=None):
+        self.names = {k: i for i, k in enumerate(KEYS if keys is None else keys)}
+        self.nkeys = len(self.names)
 
     def key(self, name):
         if name not in self.names:
-            self.names[name] = 100 + len(self.names) - len(KEYS)
+            self.names[name] = 100 + len(self.names) - self.nkeys
         return self.names[name]
 
     def fa_name(self, o):
@@ -273,26 +372,54 @@ class Ser:
             return {"*": [self.ser(o._op1), self.ser(o._op2)]}
         if isinstance(o, (E["OpChain"], E["ChainOperator"])):
             return self.chain(list(o._ops))
+        if hasattr(o, "_vtag"):
+            return {"l": int(o._vtag), "a": self.inputs(o)}
         if type(o) is ift.FieldAdapter:
             return {"v": self.key(self.fa_name(o))}
         raise Unserialisable("node " + type(o).__name__)
 
+    def inputs(self, o):
+        """a tagged leaf that reads the environment directly: the tuple of the keys of its domain"""
+        E = env()
+        ift = E["ift"]
+        if not isinstance(o.domain, ift.MultiDomain):
+            raise Unserialisable("leaf " + type(o).__name__ + " at the end of a chain does not read keys")
+        ks = sorted(o.domain.keys())
+        if not ks:
+            raise Unserialisable("leaf without input keys")
+        for k in ks:
+            if k not in self.names:
+                raise Unserialisable("leaf reads the unknown key " + str(k))
+        e = {"v": self.names[ks[-1]]}
+        for k in reversed(ks[:-1]):
+            e = {"pair": [{"v": self.names[k]}, e]}
+        return e
+
     def chain(self, ops):
         E = env()
         ift = E["ift"]
+        flat = []
+        for o in ops:    # nested chains mean the same as the flattened chain
+            if isinstance(o, (E["OpChain"], E["ChainOperator"])) and len(ops) > 1:
+                flat.extend(o._ops)
+            else:
+                flat.append(o)
+        if len(flat) != len(ops):
+            return self.chain(flat)
         if len(ops) == 1:
             return self.ser(ops[0])
         last = ops[-1]
-        if isinstance(last.target, ift.MultiDomain):
+        if isinstance(last.target, ift.MultiDomain) and not hasattr(last, "_vtag"):
             k, bound = self.envbuilder(last)
             return {"let": k, "b": bound, "in": self.chain(ops[:-1])}
         # an environment builder without pass-through keys is flattened into the chain:
         #   [core.., FieldAdapter(name).adjoint, sub..]  =  let name = sub in core
         for i, o in enumerate(ops):
-            if i > 0 and isinstance(o, E["OperatorAdapter"]) and o._trafo == 1 and type(o._op) is ift.FieldAdapter:
+            if (i > 0 and not hasattr(o, "_vtag") and isinstance(o, E["OperatorAdapter"]) and o._trafo == 1
+                    and type(o._op) is ift.FieldAdapter):
                 return {"let": self.key(self.fa_name(o._op)), "b": self.chain(ops[i + 1:]), "in": self.chain(ops[:i])}
         first = ops[0]
-        if hasattr(first, "_vtag") and isinstance(first, (E["NL"], E["LL"])):
+        if hasattr(first, "_vtag"):
             return {"l": int(first._vtag), "a": self.chain(ops[1:])}
         if isinstance(first, (E["OpSum"], E["OpProd"], E["OpChain"], E["ChainOperator"])) and len(ops) > 1:
             # a node applied to an environment-valued tail is handled above; anything else is unexpected
@@ -361,9 +488,12 @@ def evaluate(op, vals, dirs, cot):
 def run_real(case):
     E = env()
     ift = E["ift"]
-    steps = case["steps"]
     try:
-        op = build(steps)
+        if "lib" in case:
+            op = build_lib(case["lib"])
+            tag_leaves(op)
+        else:
+            op = build(case["steps"])
     except Exception as e:  # noqa: BLE001
         return dict(error="build:" + type(e).__name__)
     if not isinstance(op.domain, ift.MultiDomain):
@@ -379,6 +509,21 @@ def run_real(case):
         site = (fr[-1].filename.split("/")[-1] + ":" + fr[-1].name) if fr else ""
         return dict(error="optimise:" + type(e).__name__, site=site, op=op)
     return dict(op=op, opt=opt)
+
+
+def evaluate_lib(op, seed):
+    """value, J·dx, Jᵀ·y of a library model at a seeded random position"""
+    E = env()
+    ift = E["ift"]
+    with ift.random.Context(seed):
+        x = ift.from_random(op.domain) * 0.3
+        dx = ift.from_random(op.domain)
+        y = ift.from_random(op.target)
+    val = op(x).asnumpy()
+    lin = op(ift.Linearization.make_var(x))
+    jv = lin.jac(dx).asnumpy()
+    jt = lin.jac.adjoint_times(y)
+    return val, jv, {k: jt[k].asnumpy() for k in op.domain.keys()}
 
 
 def inputs_for(case, n):
@@ -400,12 +545,15 @@ def allclose(a, b):
 def oracle(case):
     """the property on the real code only: same domain and target, equal value and Jacobian at several inputs"""
     E = env()
-    if case["steps"][-1][0] not in ("add", "mul"):
-        return None     # not a sum/product tree (the optimiser works on trees with at least one node)
     r = run_real(case)
     if "error" in r:
         if r["error"].startswith("build:"):
             return None
+        if not has_node(r["op"]):
+            # no _OpSum/_OpProd the optimiser could see (a bare chain, a linear operator, a sum of likelihood energies):
+            # there is nothing to share and the operator should come back unchanged
+            return (f"optimise_operator fails on an operator without sum/product nodes: {r['error']} at {r.get('site')}",
+                    dict(kind="crash", nodeless=True))
         return (f"optimise_operator fails on a well-formed tree: {r['error']} at {r.get('site')}",
                 dict(kind="crash", error=r["error"], site=r.get("site")))
     op, opt = r["op"], r["opt"]
@@ -413,8 +561,12 @@ def oracle(case):
         return ("optimised operator has a different domain or target", dict(kind="domain"))
     for vals, dirs, cot in inputs_for(case, 4):
         try:
-            v0, j0, t0 = evaluate(op, vals, dirs, cot)
-            v1, j1, t1 = evaluate(opt, vals, dirs, cot)
+            if "lib" in case:
+                v0, j0, t0 = evaluate_lib(op, vals["a"][0] + 7 * cot[0] + 100)
+                v1, j1, t1 = evaluate_lib(opt, vals["a"][0] + 7 * cot[0] + 100)
+            else:
+                v0, j0, t0 = evaluate(op, vals, dirs, cot)
+                v1, j1, t1 = evaluate(opt, vals, dirs, cot)
         except Exception as e:  # noqa: BLE001
             return (f"optimised operator cannot be evaluated: {type(e).__name__}", dict(kind="crash-eval", error=type(e).__name__))
         if not allclose(v0, v1):
@@ -427,6 +579,11 @@ def oracle(case):
 
 
 def shrink(case):
+    if "lib" in case:
+        for n in (4, 6):
+            if case["lib"].get("n", 8) > n:
+                yield dict(case, lib=dict(case["lib"], n=n))
+        return
     steps = case["steps"]
     # drop the last step / any step that nothing refers to
     for cut in range(len(steps) - 1, 1, -1):
@@ -467,6 +624,9 @@ def run(ctx):
         else:
             steps = gen_script(ctx.rng, ctx.rng.choice([6, 8, 10, 12] if ctx.quick else [6, 8, 10, 12, 14, 16]))
         cases.append(dict(steps=steps, rngseed=ctx.rng.randrange(1000), inseed=ctx.rng.randrange(10 ** 6)))
+    for i in range(ctx.n(6, 60)):
+        cases.append(dict(lib=dict(kind=LIB_KINDS[i % len(LIB_KINDS)], form=ctx.rng.randrange(5), n=ctx.rng.choice([4, 6, 8]),
+                                   seed=ctx.rng.randrange(1000)), rngseed=ctx.rng.randrange(1000), inseed=ctx.rng.randrange(10 ** 6)))
     reqs, metas = [], []
     for c in cases:
         r = run_real(c)
@@ -477,13 +637,18 @@ def run(ctx):
             ctx.stat("impl:" + r["error"])
             ctx.case(c, nontrivial=False)
             continue
-        ser = Ser()
+        ser = Ser(sorted(r["op"].domain.keys()) if "lib" in c else None)
         try:
             e_orig = ser.ser(r["op"])
             e_opt = ser.ser(r["opt"])
         except Unserialisable as e:
             ctx.broke("correspondence", "serialiser met an unknown node", str(e))
             ctx.stat("unserialisable")
+            continue
+        if "lib" in c:
+            ctx.stat("library-model:" + c["lib"]["kind"])
+            reqs.append(dict(orig=e_orig, opt=e_opt, env=[[i, "1"] for i in range(ser.nkeys)]))
+            metas.append((c, r, ser, None, None))
             continue
         expected = expand(c["steps"])
         ctx.compare(dict(c, what="serialised original"), e_orig, expected,
@@ -496,6 +661,18 @@ def run(ctx):
     for (c, r, vals, dirs, cot), m in zip(metas, outs):
         E = env()
         ift = E["ift"]
+        if "lib" in c:
+            # library leaves have no counterpart in the model: only the verified checker's verdict and the key sets count;
+            # the values and Jacobians of the real operators are compared by the oracle above
+            ser = vals
+            impl = dict(sharing=True, keys_opt=sorted(ser.names[k] for k in r["opt"].domain.keys()),
+                        keys_orig=sorted(ser.names[k] for k in r["op"].domain.keys()))
+            model = dict(sharing=m.get("sharing"), keys_opt=m.get("keys_opt"), keys_orig=m.get("keys_orig"))
+            ctx.stat("lib-lets=%d" % min(m.get("lets", 0), 6))
+            ctx.compare(c, impl, model, note="library model: verified checker verdict and key sets of the serialised trees vs the "
+                        "real optimiser output", nontrivial=m.get("lets", 0) > 0)
+            ctx.traces_validated += 1
+            continue
         v0, _, _ = evaluate(r["op"], vals, dirs, cot)
         v1, _, _ = evaluate(r["opt"], vals, dirs, cot)
         keys_real = sorted(KEYS.index(k) for k in r["opt"].domain.keys())
